@@ -317,7 +317,7 @@ impl Property for C10 {
          or duplicate batch positions, extreme integers incl. u64::MAX, over-long declared lengths, orphan Middle/Last frames) \
          placed right after the written extent, at a block start, or as a whole new file. Oracle: open under catch_unwind \
          returns Ok or Err; on Ok every read accessor (full and generated-bound range iteration, last_record, last_position, \
-         summary, resource_usage) runs without panic; the hook's block-load counter stays <= blocks + files + 16; the worker's \
+         summary, resource_usage) runs without panic; the hook's block-load counter stays <= 8 * (blocks + files) + 64; the worker's \
          address space is capped (12 GiB) and a 60 s per-case watchdog (confirmed by an isolated re-run) turns a hang into a \
          violation. evaluations = damaged directories opened. non-trivial = the directory differs from a valid image and \
          recovery parsed >= 1 entry (open Ok with >= 1 queue, or an error after damage inside the written extent); distinct = \
@@ -420,7 +420,9 @@ impl Property for C10 {
             image.materialize(&damaged_dir).map_err(|err| CaseError::Engine(format!("materialize: {err}")))?;
             extras.materialize(&damaged_dir).map_err(|err| CaseError::Engine(format!("materialize extras: {err}")))?;
             let total_blocks: u64 = image.files.values().map(|content| (content.len() / BLOCK) as u64 + 1).sum();
-            let step_bound = total_blocks + image.files.len() as u64 + 16;
+            // generous on purpose (a recovery that made several passes over the files would still be fine): the point is
+            // work that is out of proportion with the directory, i.e. an error path that re-reads without progress
+            let step_bound = 8 * (total_blocks + image.files.len() as u64) + 64;
             verif_hooks::reset_steps();
             let result = open_log(&damaged_dir, case.policy);
             let steps = verif_hooks::steps();
